@@ -116,6 +116,17 @@ func (r *R) Gen(ctx sdk.Context, g *hx.Rng) string {
 			toks = append(toks, tok{c.Denom.Id, m.Id, r.sym(c.Denom.Owner)})
 		}
 	}
+	type holding struct{ a, d, m string }
+	var holdings []holding
+	for _, o := range gs.Owners {
+		for _, d := range o.Denoms {
+			for _, b := range d.Balances {
+				if b.Amount > 0 {
+					holdings = append(holdings, holding{r.sym(o.Address), d.DenomId, b.MtId})
+				}
+			}
+		}
+	}
 	acc := func() string { return hx.AccName(g.Intn(nAcc)) }
 	pickDenom := func() (string, string) {
 		if len(denoms) == 0 || g.Chance(1, 20) {
@@ -188,6 +199,10 @@ func (r *R) Gen(ctx sdk.Context, g *hx.Rng) string {
 	case 3:
 		t := pickTok()
 		s := acc()
+		if len(holdings) > 0 && g.Chance(3, 4) { // mostly a real holder of a real token
+			h := holdings[g.Intn(len(holdings))]
+			t, s = tok{h.d, h.m, ""}, h.a
+		}
 		rc := acc()
 		if g.Chance(1, 8) {
 			rc = s
@@ -197,6 +212,10 @@ func (r *R) Gen(ctx sdk.Context, g *hx.Rng) string {
 	case 4:
 		t := pickTok()
 		s := acc()
+		if len(holdings) > 0 && g.Chance(3, 4) {
+			h := holdings[g.Intn(len(holdings))]
+			t, s = tok{h.d, h.m, ""}, h.a
+		}
 		bal := k.GetBalance(ctx, t.d, t.m, sdk.MustAccAddressFromBech32(r.addr(s)))
 		return "mt burn " + hx.KV("sender", s, "denom", t.d, "id", t.m, "amount", r.amount(g, bal))
 	default:
